@@ -99,6 +99,23 @@ def main(argv):
             d = astlib.strict_equal(tree, back)
             if d:
                 fails.append({'input': src, 'failure': 'output parses to a different tree (%s): %r' % (d, out[:200])})
+    # depth family: long operator chains and elif ladders that the interpreter compiles (recursive visitors may run out of stack)
+    deep = ['x = ' + ' + '.join(['a'] * n) for n in (50, 200, 400)] + ['if a0:\n p\n' + ''.join('elif a%d:\n p\n' % k for k in range(1, n)) for n in (50, 200, 400)] + \
+           ['x = ' + '[' * 60 + 'a' + ']' * 60, 'x = ' + 'f(' * 60 + 'a' + ')' * 60, 'x = a' + '.b' * 400, 'x = ' + 'not ' * 90 + 'a']
+    for src in deep:
+        if not valid(src):
+            continue
+        cases += 1
+        try:
+            out = python_minifier.minify(src, **OFF)
+            d = astlib.strict_equal(ast.parse(src), ast.parse(out))
+            if d:
+                fails.append({'input': src[:120] + '...', 'failure': 'output parses to a different tree (%s)' % d})
+        except RecursionError:
+            fails.append({'input': src[:60] + '... (%d characters)' % len(src), 'mechanism': 'recursion-depth', 'failure': 'minify raised RecursionError on a module the interpreter compiles'})
+        except Exception as e:
+            fails.append({'input': src[:120] + '...', 'failure': 'minify raised %s: %s' % (type(e).__name__, str(e)[:100])})
+    fails.sort(key=lambda f: bool(f.get('mechanism')))
     print(json.dumps({'cases': cases, 'failures': fails[:40], 'n_failures': len(fails)}))
 
 
